@@ -62,6 +62,18 @@ theorem getters_covered : Facts.C04.getters =
      "GetSlicers", "GetStyle", "GetTables", "GetWorkbookProps", "Rows", "SearchSheet"] := by
   decide
 
+/-- clause "read-only calls are pure", syntactic side: among the bodies of all exported read
+functions of `*File` exactly one assigns to a field or element of an object that is not a
+fresh local (named result, `var`, composite literal, `make`, `new`): `GetConditionalStyle`
+writes the default pattern type into the shared `dxf` — open finding
+`purity:saved:GetConditionalStyle:dxf-pattern-type`, reproduced by the harness witness. Any
+other such write appearing in a getter body breaks this theorem. (Writes inside callees —
+`getValueFrom`, `prepareSheetXML`, `mergeOverlapCells` — are covered by their own facts and
+by the twin-run oracle.) -/
+theorem getter_shared_writes_pinned :
+    Facts.C04.getterSharedWrites = ["GetConditionalStyle:xf.Fill.PatternFill.PatternType"] := by
+  decide
+
 /-! ## All read paths agree -/
 
 /-- clause "the value of a cell is the same whichever read interface is used"
